@@ -170,7 +170,7 @@ package destination
 //@   fresh
 //@   requires dp != nil
 //@   ensures[length_prefixed; C16; bounded] result[..] == be32(len(pickleOf(dp.Name, dp.Time, dp.Val))) ++ pickleOf(dp.Name, dp.Time, dp.Val)
-//@   bounded TestBounded_pickleFrame "60 lines (names with dots/tags, float spellings 1, 1.5, 1e3, -0.25, integer timestamps up to 2^32-1): the frame is a 4-byte big-endian length followed by a pickle that CPython decodes to [(name, (timestamp, value))] with the same name, integer timestamp and float value"
+//@   bounded TestBounded_pickleFrame "336 lines (6 names incl. tagged and non-ASCII ones x 14 value spellings incl. 1e3, -0, NaN, Inf, 20-digit integers x 4 timestamps up to 2^32-1): the frame is a 4-byte big-endian length followed by a pickle that CPython decodes to [(name, (timestamp, value))] with the same name, integer timestamp and float value; 8 lines that cannot be represented (field count, non-integer or out-of-range timestamp, non-numeric value) are rejected"
 //@
 //@ func (c *Conn) Write(buf []byte) (written int, err error)
 //@   property C05,C16
